@@ -108,7 +108,14 @@ template<class Graph> struct Run {
             if (c.footprints) for (auto &e : c.fp_events) emit("{\"algo\":\"" + algo + "\",\"id\":" + std::to_string(in.id) + "," + e.substr(1));
             c.footprints = false; c.fp_events.clear();
         }
-        for (int r = 0; r < nrandom; r++) { c.mode = 1; c.seed = seed * 1000003ULL + (uint64_t) r * 7919ULL + (uint64_t) in.id; record(once(b, in, algo, k), "random" + std::to_string(c.seed)); }
+        for (int r = 0; r < nrandom; r++) {
+            c.mode = 1; c.seed = seed * 1000003ULL + (uint64_t) r * 7919ULL + (uint64_t) in.id;
+            // the first random run is also logged region by region (schedule tree with start / result value of every node)
+            c.trace_regions = g_footprints && r == 0; c.region_events.clear();
+            record(once(b, in, algo, k), "random" + std::to_string(c.seed));
+            if (c.trace_regions) for (auto &e : c.region_events) emit(e);
+            c.trace_regions = false; c.region_events.clear();
+        }
         // 3. one region at a time under every TLC-generated schedule of its size
         int done_regions = 0;
         for (size_t j = 0; j < regions.size() && done_regions < max_regions; j++) {
